@@ -9,7 +9,7 @@
 //!   ja=<jitter amplitude> js=<jitter seed>  grow=<extra call cost per round index>  skew=<extra call cost per thread index>
 //!   off=<o0,o1,..>  initial counter value per thread
 //!   x=<r:t:e,...>   extra ticks added to the first call of round r (0-based) on thread t (`*` = every thread)
-//!   budget=<max calls of the benchmarked function over the whole case>
+//!   budget=<max calls of the benchmarked function over the whole case>  maxr=<max rounds>  (watchdog: the closure panics beyond)
 //!
 //! Output: `ok K=.. sizes=.. calls=.. rag=.. fs=.. dur=.. ak=.. cnt=.. ss=.. si=.. | vt=.. init=.. h=..`
 //! Everything before ` | ` is compared with the model; `h` is the recorded
@@ -39,6 +39,7 @@ struct Script {
     off: Vec<u64>,
     extra: Vec<(u64, Option<u32>, u64)>,
     budget: u64,
+    max_rounds: u64,
 }
 
 static SCRIPT: Mutex<Option<Script>> = Mutex::new(None);
@@ -87,6 +88,9 @@ fn enter<R>(phase: u8, f: impl FnOnce(&Script, u64, u64, u32) -> R) -> R {
         if ts.phase != phase {
             if phase == 0 {
                 ts.round = ts.round.wrapping_add(1);
+                if ts.round >= ts.script.max_rounds {
+                    panic!("round budget exceeded");
+                }
             }
             ts.phase = phase;
             ts.iter = 0;
@@ -175,7 +179,7 @@ fn run_case(line: &str) -> String {
     let mut prec = 1u128;
     let mut oh = [0u128; 4];
     let mut ic = false;
-    let mut sc = Script { budget: 100_000, ..Script::default() };
+    let mut sc = Script { budget: 60_000, max_rounds: 1_200, ..Script::default() };
     for tok in hxlib::toks(line) {
         let Some((k, val)) = tok.split_once('=') else { panic!("bad token {tok}") };
         match k {
@@ -209,6 +213,7 @@ fn run_case(line: &str) -> String {
                 }
             }
             "budget" => sc.budget = val.parse().expect("budget"),
+            "maxr" => sc.max_rounds = val.parse().expect("maxr"),
             _ => panic!("unknown key {k}"),
         }
     }
